@@ -51,6 +51,25 @@ class Fn:
         self.consts = consts or {}
         self.coqname = coqname or ('gen_' + node.name)
 
+    def caller_owned(self, name, lineno):
+        """may `name` at `lineno` still be the object the caller passed in?  (conservative, lexical: a bytes-typed
+        parameter, or a name bound to one by a bare `x = y`, is caller-owned until a top-level statement of the
+        function body rebinds it to a freshly built value before that line)"""
+        owned = {a for a, t in self.argtypes.items() if t in ('bytes', BYTES)}
+        for n in ast.walk(self.node):
+            if isinstance(n, ast.Assign) and len(n.targets) == 1 and isinstance(n.targets[0], ast.Name) \
+                    and isinstance(n.value, ast.Name) and n.value.id in owned:
+                owned.add(n.targets[0].id)
+        if name not in owned:
+            return False
+        for st in self.node.body:
+            if st.lineno >= lineno:
+                break
+            if isinstance(st, ast.Assign) and len(st.targets) == 1 and isinstance(st.targets[0], ast.Name) \
+                    and st.targets[0].id == name and not isinstance(st.value, ast.Name):
+                return False
+        return True
+
     # ---- expressions -------------------------------------------------------
     def expr(self, e, env):
         """return (coq_text, type)"""
@@ -278,6 +297,10 @@ class Fn:
         if isinstance(s, ast.AugAssign):
             if not isinstance(s.target, ast.Name):
                 raise Unsupported('augassign target')
+            if s.target.id in env and env[s.target.id][0] == BYTES and self.caller_owned(s.target.id, s.lineno):
+                # bytearray `x += y` mutates the object in place: on a buffer the caller still holds this is a side
+                # effect the pure translation would hide
+                raise Unsupported('in-place += on caller-owned buffer %s' % s.target.id)
             new = ast.Assign(targets=[s.target], value=ast.BinOp(left=ast.Name(id=s.target.id, ctx=ast.Load()), op=s.op, right=s.value))
             return self.block([new] + rest, env, k)
         if isinstance(s, ast.Return):
